@@ -1353,6 +1353,15 @@ func (t *FnTrans) unop(x *ssa.UnOp) {
 			v.Fn = fv.Fn
 			t.vals[x] = v
 		}
+		if ia, ok := x.X.(*ssa.IndexAddr); ok {
+			if pr, ok := ia.X.(*ssa.Parameter); ok {
+				if _, isSig := T.Underlying().(*types.Signature); isSig {
+					v := t.vals[x]
+					v.Nm = pr.Name() // element of a (variadic) parameter of function values: callback contract by the parameter's name
+					t.vals[x] = v
+				}
+			}
+		}
 		if fvv, ok := x.X.(*ssa.FreeVar); ok {
 			if _, isSig := T.Underlying().(*types.Signature); isSig {
 				v := t.vals[x]
